@@ -1616,6 +1616,7 @@ def validate(prop, rng, n_per_fn, res):
         validate_maskrules(rng, max(600, 6 * n_per_fn), res)
     if prop == "C15" and os.path.exists(TRDRIVER):
         validate_gridcompat(rng, max(60, 2 * n_per_fn), res)
+        validate_canonical(rng, max(80, 2 * n_per_fn), res)
     if prop == "C19" and os.path.exists(TRDRIVER) and all(common.TRANSLATION_STATUS.get(f, {}).get("translated") for f in
                                                          ("check_input_connected", "check_dead_links", "check_branching")):
         validate_topology_heap(rng, max(20, n_per_fn), res)
@@ -1904,6 +1905,57 @@ def validate_run_loop(rng, n_specs, res):
                 stats["mismatch"] += 1
                 res.diverge("translation/run_loop", {"spec": spec}, want, got)
     res.extra["translation_validation_run_loop"] = stats
+
+
+def validate_canonical(rng, n_cases, res):
+    """live structured grids of every layout (the catalogue of C15) and integer arrays — in the grid's data shape, with an
+    extra axis where the conversion admits one, and of wrong shapes: `to_canonical` / `from_canonical` of the real class
+    against the translated methods on the attributes read from the object; arrays travel as (shape, elements in C order)"""
+    from . import gridutil as gu
+
+    names = ("StructuredGrid_to_canonical", "StructuredGrid_from_canonical")
+    if not all(common.TRANSLATION_STATUS.get(f, {}).get("translated") for f in names):
+        return
+    stats = {"calls": 0, "converted": 0, "rejected": 0, "with_extra_axis": 0, "mismatch": 0}
+    enc_arr = lambda x: [[int(n) for n in x.shape], [int(v) for v in np.ravel(x, order="C")]]  # noqa
+    reqs, expect = [], []
+    for _ in range(n_cases):
+        d = rng.randint(1, 3)
+        dims = [rng.randint(1, 4) for _ in range(d)]
+        order, rev, inc = rng.choice(list(gu.layouts(d)))
+        spec = gu.make_spec(rng.choice(["uniform", "rect"]), dims, order, rev, inc, rng.choice(["cells", "points"]))
+        try:
+            g = gu.build_grid(spec)
+        except Exception:  # noqa
+            continue
+        dshape = tuple(int(n) for n in g.data_shape)
+        for fn, meth in ((names[0], g.to_canonical), (names[1], g.from_canonical)):
+            r = rng.random()
+            base = dshape if fn == names[0] else (dshape[::-1] if g.axes_reversed else dshape)
+            if r < 0.55:
+                shape = base
+            elif r < 0.8:
+                # an extra (time) axis: at the end, or in front for data of a grid with reversed axes order
+                shape = ((2,) + base) if (g.axes_reversed and fn == names[0]) else (base + (2,))
+                stats["with_extra_axis"] += 1
+            else:
+                shape = tuple(rng.randint(1, 4) for _ in range(rng.randint(1, 3)))
+            x = np.arange(int(np.prod(shape)), dtype=np.int64).reshape(shape) * 3 + 1
+            try:
+                want = {"ok": enc_arr(np.asarray(meth(x)))}
+                stats["converted"] += 1
+            except Exception as e:  # noqa
+                want = {"err": err_class(e)}
+                stats["rejected"] += 1
+            reqs.append({"fn": fn, "args": [bool(g.axes_reversed), [int(n) for n in dshape], [bool(b) for b in g.axes_increase], enc_arr(x)]})
+            expect.append((spec, fn, list(shape), want))
+            stats["calls"] += 1
+    if reqs:
+        for (spec, fn, shape, want), got in zip(expect, _trdriver(reqs)):
+            if got != want:
+                stats["mismatch"] += 1
+                res.diverge("translation/" + fn, {"grid": spec, "fn": fn, "array_shape": shape}, want, got)
+    res.extra["translation_validation_canonical"] = stats
 
 
 def validate_gridmemo(rng, n_grids, res):
